@@ -109,6 +109,31 @@ def run_case(rows, idkind, text, nfeat):
                 rec["roundtrip_ok"] = bool(rt)
             except Exception as e:  # noqa: BLE001
                 rec["status"] = f"other_{type(e).__name__}"
+    # the same table through a CSV file (Data.from_csv_file, identifiers read as text): same verdict, same canonical form
+    rec["csv_same"] = True
+    if idkind == "str" and not text and len(rows):
+        import os
+        import tempfile
+        fd, path = tempfile.mkstemp(suffix=".csv")
+        os.close(fd)
+        try:
+            with warnings.catch_warnings():
+                warnings.simplefilter("ignore")
+                snap.to_csv(path, index=False)
+                try:
+                    ds3 = Dataset(Data.from_csv_file(path))
+                    st3 = "ok"
+                except LeaspyDataInputError:
+                    st3 = "data_error"
+                except Exception as e:  # noqa: BLE001
+                    st3 = f"other_{type(e).__name__}"
+                same = st3 == rec["status"]
+                if same and st3 == "ok":
+                    form3, ok3 = project(ds3, idkind, nfeat)
+                    same = ok3 and form3 == rec["form"]
+                rec["csv_same"] = bool(same)
+        finally:
+            os.remove(path)
     return rec
 
 
